@@ -67,7 +67,12 @@ package lexer
 // consumeEOL (inside a short string, *i is an index into the token): a counted line break restarts the line at the byte after it
 //@ func (*Lexer).consumeEOL
 //@   props C04
-//@   ensures[C04,line-break-restarts-the-line-after-it] result ==> nlb(l.chunk[old(deref(i))]) && l.lineStartPos == l.currentPos + deref(i) && nlb(l.chunk[deref(i) - 1])
+// (the line start is kept in COLUMNS like the position counter: currentPos + the column width of the token text up to and
+// including the break - the literal may hold non-ASCII text in front of it; for ASCII text that is the byte count)
+//@   at call columnWidth#0 before assert[C04,width-of-the-token-text-up-to-and-including-the-break] sametext(arg0, l.chunk) && off(arg0) == off(l.chunk) && len(arg0) == deref(i)
+//@   ensures[C04,a-counted-break-is-a-line-break] result ==> nlb(l.chunk[old(deref(i))]) && nlb(l.chunk[deref(i) - 1])
+//@   ensures[C04,line-break-restarts-the-line-after-it] result ==> hits("columnWidth#0") == 1 && l.lineStartPos == l.currentPos + lastresult("columnWidth#0")
+//@   ensures[C04,ascii-text-before-the-break-counts-in-bytes] result && forall(k, 0, deref(i), l.chunk[k] < 128) ==> l.lineStartPos == l.currentPos + deref(i)
 //@   ensures[C04,no-effect-otherwise] !result ==> l.line == old(l.line) && l.lineStartPos == old(l.lineStartPos)
 //@   ensures[C04,position-counter-untouched] l.currentPos == old(l.currentPos)
 //@   ensures[C04,a-counted-line-break-is-one-line] (result ==> l.line == old(l.line) + 1)
